@@ -64,7 +64,8 @@ func parseRecipientsFile(name string) ([]age.Recipient, error) {
 	const recipientFileSizeLimit = 16 << 20 // 16 MiB
 	const lineLengthLimit = 8 << 10         // 8 KiB, same as sshd(8)
 	var recs []age.Recipient
-	scanner := bufio.NewScanner(io.LimitReader(f, recipientFileSizeLimit))
+	lr := &io.LimitedReader{R: f, N: recipientFileSizeLimit}
+	scanner := bufio.NewScanner(lr)
 	var n int
 	for scanner.Scan() {
 		n++
@@ -95,6 +96,9 @@ func parseRecipientsFile(name string) ([]age.Recipient, error) {
 	}
 	if err := scanner.Err(); err != nil {
 		return nil, fmt.Errorf("%q: failed to read recipients file: %v", name, err)
+	}
+	if lr.N <= 0 {
+		return nil, fmt.Errorf("%q: failed to read recipients file: file too long", name)
 	}
 	if len(recs) == 0 {
 		return nil, fmt.Errorf("%q: no recipients found", name)
@@ -215,7 +219,8 @@ func parseIdentity(s string) (age.Identity, error) {
 func parseIdentities(f io.Reader) ([]age.Identity, error) {
 	const privateKeySizeLimit = 1 << 24 // 16 MiB
 	var ids []age.Identity
-	scanner := bufio.NewScanner(io.LimitReader(f, privateKeySizeLimit))
+	lr := &io.LimitedReader{R: f, N: privateKeySizeLimit}
+	scanner := bufio.NewScanner(lr)
 	var n int
 	for scanner.Scan() {
 		n++
@@ -233,6 +238,9 @@ func parseIdentities(f io.Reader) ([]age.Identity, error) {
 	}
 	if err := scanner.Err(); err != nil {
 		return nil, fmt.Errorf("failed to read secret keys file: %v", err)
+	}
+	if lr.N <= 0 {
+		return nil, fmt.Errorf("failed to read secret keys file: file too long")
 	}
 	if len(ids) == 0 {
 		return nil, fmt.Errorf("no secret keys found")
